@@ -189,6 +189,33 @@ def _planted_try(rng, kind, n, dims, p, P_rank, free=0):
         return Planted(kind=kind, c=c, G=G, h=h, A=A, b=b, dims=dims, n=n, p=p, N=N, P=None, wit=w)
     raise ValueError(kind)
 
+def planted_twosided(rng):
+    """strictly feasible cone LP whose inequalities come in opposite pairs (B x <= u, -B x <= -l; F(x) <= U, -F(x) <= -L) plus ball
+    constraints ||B x + d|| <= r: G'e = 0 for the cone identity e, so shifting a start point along e changes no residual.  Box-constrained
+    LPs, norm balls and two-sided LMIs have this shape; the default start of conelp is then feasible for the linear equations."""
+    for _ in range(200):
+        l0 = rng.randint(0, 3); q0 = [rng.randint(2, 4) for _ in range(rng.randint(0, 1))]; s0 = [rng.randint(1, 2) for _ in range(rng.randint(0, 1))]
+        if l0 + len(q0) + len(s0) == 0: l0 = 2
+        dims = {'l': 2 * l0, 'q': list(q0), 's': [k for k in s0 for _ in (0, 1)]}
+        N = cdim(dims)
+        n = rng.randint(1, min(3, max(1, l0 + sum(m - 1 for m in q0) + sum(k * (k + 1) // 2 for k in s0))))
+        G = []
+        for j in range(n):
+            Bl = [rint(rng) for _ in range(l0)]
+            col = Bl + [-a for a in Bl]
+            for m in q0: col += [0.0] + [rint(rng) for _ in range(m - 1)]
+            for k in s0:
+                F = sym_vector(rng, {'l': 0, 'q': [], 's': [k]})
+                col += F + [-a for a in F]
+            G.append(col)
+        if rank_cols(G, [[] for _ in range(n)]) != n: continue
+        x0 = [rint(rng, 2) for _ in range(n)]; sl = interior_point(rng, dims); z0 = interior_point(rng, dims)
+        h = [a + b for a, b in zip(matvec(G, x0), sl)]
+        c = [-a for a in mattvec(G, z0)]
+        return Planted(kind='optimal', c=c, G=G, h=h, A=[[] for _ in range(n)], b=[], dims=dims, n=n, p=0, N=N, P=None,
+                       wit={'x': x0, 's': sl, 'z': z0, 'y': []})
+    raise RuntimeError('no two-sided instance found')
+
 def rankdef_conelp(rng, first=False):
     """an unbounded epigraph LP  min t  s.t.  -a*y <= b,  y_k + w - t <= 0  whose columns for w and t are collinear, so Rank([G;A]) < n:
     conelp's rank assumption fails silently (no ArithmeticError) and its least-squares starting point has zero gap but dres = 1."""
